@@ -195,6 +195,53 @@ def fill_plan_binding(chk, tier):
     chk.cov['fill_plans_validated'] = len(models)
 
 
+def history_case(args):
+    """'from nothing but the pulse geometry, the wire radii and the frequency' -- with the REAL kernel: the matrix of
+       an object that was filled at another frequency before (radii on the other side of the thin-wire limit
+       1e-4 wavelength there) equals the matrix of a fresh object, entry by entry"""
+    rec, ground, sd, (f1, f2) = args
+    out = dict(mism=[], exc=None, n=0)
+    try:
+        lam2 = 299.8 / f2
+        lam1 = 299.8 / f1
+        rnd = random.Random('%s/%s/%s' % (sd, C.h(rec['input']), f1))
+        # radii 1, 1.5, 2 times the base (per wire): around the limit of both frequencies
+        radius = 1e-4 * math.sqrt(lam1 * lam2) / 1.5
+        st = rnd.getstate()
+        lay = L.Layout(rec['input'], rnd, min(lam1, lam2) * 0.03)
+        m = L.build_real(rec, lay, ground, f1, radius)
+        m.compute_impedance_matrix()
+        m.f = f2
+        m.compute_impedance_matrix()
+        fresh = L.build_real(rec, lay, ground, f2, radius)
+        fresh.compute_impedance_matrix()
+        Z, E = np.array(m.Z), np.array(fresh.Z)
+        out['n'] = int(Z.size)
+        out['crossing'] = sorted({(float(g.r) > 1e-4 * lam1) != (float(g.r) > 1e-4 * lam2) for g in m.geo})
+        err = np.abs(Z - E).max() / np.abs(E).max()
+        if err > 1e-12:
+            i, j = np.unravel_index(np.abs(Z - E).argmax(), Z.shape)
+            out['mism'].append(dict(what='matrix-depends-on-earlier-frequency', err=float(err), obs=int(i), src=int(j),
+                                    f1=f1, f2=f2))
+    except Exception as e:      # noqa
+        import traceback
+        out['exc'] = repr(e) + traceback.format_exc()[-600:]
+    return out
+
+
+def history_binding(chk, tier):
+    recs = L.long_records(chk)
+    pairs = [(3.0, 30.0), (30.0, 3.0), (7.0, 7.4), (14.0, 3.5)]
+    js = [(r, g, C.seed(), p) for r, g in recs for p in pairs]
+    for (r, g, _, p), o in zip(js, C.parallel_map(history_case, js, chunksize=1)):
+        chk.case(dict(hist=r['input'], g=g, p=p), True in (o.get('crossing') or []),
+                 sample=dict(input=r['input'], ground=g, frequencies=p), n=max(1, o['n']))
+        if o['exc']:
+            chk.violation(dict(kind='exception', exc=o['exc'].split('(')[0]), dict(input=r['input'], ground=g, exc=o['exc']))
+        for mm in o['mism']:
+            chk.violation(dict(kind=mm['what']), dict(input=r['input'], ground=g, info=mm))
+
+
 def jobs(chk, tier):
     for r, g in L.long_records(chk):
         for k in range(6 if tier == 'quick' else 40):
@@ -212,6 +259,7 @@ def run(tier):
         'Mininec.psi is replaced in the harness process only (no change to the repository); the replacement honours the calling contract of psi (length = |scale| * seg_len of the half selected by the sign of scale)',
         'radius >= 1e-4 wavelength, so every self term goes through psi (the closed-form small-radius branch is outside this check)']
     fill_plan_binding(chk, tier)
+    history_binding(chk, tier)          # real kernel: before the surrogate is installed
     L.install_surrogate()
     for job, o in C.parallel_imap(check_record, jobs(chk, tier), chunksize=16):
         r, g = job[0], job[1]
